@@ -48,6 +48,19 @@ extern void cmi_assert_failed(const char *sourcefile, const char *func, int line
 #define CANARY(name) __CPROVER_assert(0, "CANARY " name)
 #define ASSUME(c) __CPROVER_assume(c)
 
+/* The logger: info/warning/user lines have no effect on library state (their ARGUMENTS are
+ * still evaluated by the real code and checked); fatal/error terminate the program, so
+ * reaching one is an abort of the library (C10). */
+#include <stdarg.h>
+#include "cmb_logger.h"
+void cmi_logger_info(FILE *fp, const char *func, int line, char *fmtstr, ...) { (void)fp; (void)func; (void)line; (void)fmtstr; }
+void cmi_logger_warning(FILE *fp, const char *func, int line, char *fmtstr, ...) { (void)fp; (void)func; (void)line; (void)fmtstr; }
+void cmi_logger_user(FILE *fp, uint32_t flags, const char *func, int line, char *fmtstr, ...) { (void)fp; (void)flags; (void)func; (void)line; (void)fmtstr; }
+void cmi_logger_fatal(FILE *fp, const char *func, int line, char *fmtstr, ...)
+{ __CPROVER_assert(0, "cmb_logger_fatal reached: the library terminates the program"); __CPROVER_assume(0); }
+void cmi_logger_error(FILE *fp, const char *func, int line, char *fmtstr, ...)
+{ __CPROVER_assert(0, "cmb_logger_error reached: the library terminates the program"); __CPROVER_assume(0); }
+
 uint64_t nondet_u64(void);
 int64_t nondet_i64(void);
 uint32_t nondet_u32(void);
